@@ -750,7 +750,9 @@ impl Constructor {
             (Constructor::Bool(b1), Constructor::Bool(b2)) => b1 == b2,
             (Constructor::Variant(..), Constructor::Variant(..)) => self == other,
             (Constructor::Int(i1), Constructor::Int(i2)) => i1 == i2,
-            (Constructor::Float(f1), Constructor::Float(f2)) => f1 == f2,
+            (Constructor::Float(f1), Constructor::Float(f2)) => {
+                f1.parse::<f64>().ok() == f2.parse::<f64>().ok()
+            }
             (Constructor::String(s1), Constructor::String(s2)) => s1 == s2,
             (Constructor::Product, Constructor::Product) => true,
             _ => panic!(
